@@ -1,7 +1,7 @@
 """C11 — every documented emissions option combination works or is refused by name.
 
 The option product (~41k combinations) is never enumerated: the defects that
-can break it are of four kinds, and each kind is a per-site rule that holds for
+can break it are of a few kinds, and each kind is a per-site rule that holds for
 every member of the enum at that site.
 
 R1  dispatch exhaustiveness (T-AGREE, finite): every dispatch over a method
@@ -23,7 +23,10 @@ R3  switched-off species stay out: every store m[Species.K] = … into an index
     implying K's switch is on, or stores a literal zero.  A store under a variable key needs `key in enabled_species`,
     or a key that is already in the map (the value reads the map at that key,
     or the key walks the map's own keys), or a key that walks the result of a
-    helper which itself inserts every species only under its switch.
+    helper which itself inserts every species only under its switch; a key
+    that walks a constant collection of Species members (tuple of members,
+    table of (member, value) rows, dict display) is decided member by member
+    like a store under that constant key.
     The implication table (species -> `<label>_enabled` switch, plus further
     conditions) is computed by evaluating EmissionsConfig.enabled_species over
     a concrete domain of Species members / strings / literal collections with
@@ -38,6 +41,34 @@ R5  source switches: a component is summed into the totals under the same
     configuration switch that decides whether it is computed.
 R6  switches: every `<label>_enabled` the table reads exists on EmissionsConfig,
     and a species that has a switch of its own is enabled by that switch.
+    Decided as a finite truth table: every option field with a finite domain
+    (bool, or an enum of the configuration module) is enumerated; each derived
+    switch `<label>_enabled` is evaluated from its own body (through other
+    properties) over the fields it reads, and each species' path condition(s)
+    in enabled_species likewise; with the group's own option off
+    (`<label>_enabled = False`, or `<label>_method = NONE`) the switch must be
+    false and the species must not be in the set - whatever the other options
+    are.  A switch that also listens to another option turns a switched-off
+    species back on.
+R7  "works or is refused by name" - no internal error from a store: an object
+    that some path stores into (element / slice store, `del x[k]`, in-place
+    operator on an array, .fill/.sort/np.put/np.copyto/`out=`, or handing it
+    to a repository function that does one of these to its parameter) must
+    not be one that refuses the store.  Decided by def-use over the emissions
+    package: origins are followed back through reaching definitions on the
+    CFG, through elements of local mappings (a re-store of the same element
+    that every path passes kills the older ones; `.update(f())`, loops over
+    .items()/.values() and over literal collections are followed), through
+    view-preserving numpy operations, module constants and the returns of
+    resolved repository functions.  Refusing origins: np.broadcast_to and
+    sliding_window_view (read-only views), as_strided(writeable=False),
+    np.frombuffer over immutable bytes, an array after `.flags.writeable =
+    False` / `.setflags(write=False)`, MappingProxyType, and a repository
+    container whose constructor takes `mutable=False` by default
+    (ThrustModeValues) built without mutable=True or after `.freeze()`;
+    `.copy(mutable=True)`, `.copy()` of an array, np.array / np.full /
+    arithmetic make fresh writable objects.  (A memoised function's result is
+    T-MEMO M2.)  Positive control: an embedded producer.
 """
 
 from __future__ import annotations
@@ -225,7 +256,24 @@ class _SpeciesSetInterp:
             return _Sym(norm(e))
         if isinstance(e, ast.UnaryOp) and isinstance(e.op, ast.Not):
             v = self.ev(e.operand, env)
-            return _Sym(norm(e)) if isinstance(v, _Sym) else (not v)
+            return _Sym(f'not ({v.text})') if isinstance(v, _Sym) else (not v)
+        if isinstance(e, ast.BoolOp):
+            # concrete operands decide or drop out; what stays symbolic keeps its substituted text
+            is_or = isinstance(e.op, ast.Or)
+            parts, last = [], None
+            for x in e.values:
+                v = self.ev(x, env)
+                last = v
+                if isinstance(v, _Sym):
+                    parts.append(v.text)
+                elif bool(v) == is_or and not parts:
+                    return v            # or: first true operand / and: first false operand, nothing symbolic before it
+                elif bool(v) == is_or:
+                    parts.append(repr(bool(v)))
+                    break
+            if not parts:
+                return last
+            return _Sym((' or ' if is_or else ' and ').join(f'({t})' for t in parts)) if len(parts) > 1 else _Sym(parts[0])
         if isinstance(e, ast.UnaryOp) and isinstance(e.op, ast.USub):
             v = self.ev(e.operand, env)
             return -v if isinstance(v, int) and not isinstance(v, bool) else _Sym(norm(e))
@@ -398,6 +446,280 @@ class _SpeciesSetInterp:
         return None
 
 
+class _Member:
+    """a member of a configuration enum during truth-table evaluation (one object per member, so `is` works; a
+    string-mixin enum also equals its value)"""
+    _all: dict = {}
+
+    def __new__(cls, enum, name, value, strmix):
+        k = (enum, name)
+        if k not in cls._all:
+            o = object.__new__(cls)
+            o.enum, o.name, o.value, o.strmix = enum, name, value, strmix
+            cls._all[k] = o
+        return cls._all[k]
+
+    def __eq__(self, other):
+        if isinstance(other, _Member):
+            return self is other or (self.strmix and other.strmix and self.value == other.value)
+        return self.strmix and isinstance(other, str) and other == self.value
+
+    def __ne__(self, other):
+        return not self.__eq__(other)
+
+    def __hash__(self):
+        return hash((self.enum, self.name))
+
+    def __repr__(self):
+        return f'{self.enum}.{self.name}'
+
+
+class _ConfigTable:
+    """Finite evaluation of EmissionsConfig's derived switches: every option field with a finite domain (bool, or an
+    enum declared in the configuration module) is enumerated, properties are evaluated from their own bodies
+    (if / return / local assignments; comparisons, boolean operators, membership tests, conditional expressions).
+    Nothing is imported or run."""
+
+    def __init__(self, prog, cm, ec):
+        self.prog, self.cm, self.ec = prog, cm, ec
+        self.enums = {}
+        for name, ci in cm.classes.items():
+            mem = {k: v.value for k, v in ci.class_assignments().items() if isinstance(v, ast.Constant)}
+            if mem and any('Enum' in b for k_ in ci.mro() for b in k_.base_exprs):
+                strmix = any(b in ('str', 'StrEnum', 'enum.StrEnum') for k_ in ci.mro() for b in k_.base_exprs)
+                self.enums[name] = [_Member(name, k, v, strmix) for k, v in mem.items()]
+        self.domains = {}
+        for f, ann in ec.all_fields().items():
+            a = norm(ann)
+            if a == 'bool':
+                self.domains[f] = [True, False]
+            elif a in self.enums:
+                self.domains[f] = list(self.enums[a])
+        self.props = {n: fi for n, fi in ec.methods.items()
+                      if any(d.split('.')[-1] in ('property', 'cached_property') for d in fi.decorators())}
+
+    def reads(self, node, seen=None):
+        """option fields a piece of code reads through self (through other properties too)"""
+        seen = set() if seen is None else seen
+        out = set()
+        for x in ast.walk(node):
+            nm = None
+            if isinstance(x, ast.Attribute) and isinstance(x.value, ast.Name) and x.value.id == 'self':
+                nm = x.attr
+            elif isinstance(x, ast.Call) and call_name(x) == 'getattr' and len(x.args) >= 2 and norm(x.args[0]) == 'self' \
+                    and isinstance(x.args[1], ast.Constant):
+                nm = x.args[1].value
+            if nm in self.domains:
+                out.add(nm)
+            elif nm in self.props and nm not in seen:
+                seen.add(nm)
+                out |= self.reads(self.props[nm].node, seen)
+        return out
+
+    def ev(self, e, env, loc):
+        if isinstance(e, ast.Constant):
+            return e.value
+        if isinstance(e, ast.Name):
+            if e.id in loc:
+                return loc[e.id]
+            raise _Cannot(f'name `{e.id}`')
+        if isinstance(e, ast.Attribute):
+            if isinstance(e.value, ast.Name) and e.value.id == 'self':
+                return self.attr(e.attr, env)
+            if isinstance(e.value, ast.Name) and e.value.id in self.enums:
+                m = next((x for x in self.enums[e.value.id] if x.name == e.attr), None)
+                if m is None:
+                    raise _Cannot(f'`{norm(e)}` is not a member')
+                return m
+            b = self.ev(e.value, env, loc)
+            if isinstance(b, _Member) and e.attr in ('value', 'name'):
+                return getattr(b, e.attr)
+            raise _Cannot(f'attribute `{norm(e)}`')
+        if isinstance(e, ast.BoolOp):
+            v = None
+            for x in e.values:
+                v = self.ev(x, env, loc)
+                if bool(v) == isinstance(e.op, ast.Or):
+                    return v
+            return v
+        if isinstance(e, ast.UnaryOp) and isinstance(e.op, ast.Not):
+            return not self.ev(e.operand, env, loc)
+        if isinstance(e, ast.IfExp):
+            return self.ev(e.body if self.ev(e.test, env, loc) else e.orelse, env, loc)
+        if isinstance(e, (ast.Tuple, ast.List, ast.Set)):
+            return tuple(self.ev(x, env, loc) for x in e.elts)
+        if isinstance(e, ast.Compare):
+            left = self.ev(e.left, env, loc)
+            for op, c in zip(e.ops, e.comparators):
+                right = self.ev(c, env, loc)
+                if isinstance(op, (ast.Eq, ast.NotEq)):
+                    r = (left == right) == isinstance(op, ast.Eq)
+                elif isinstance(op, (ast.Is, ast.IsNot)):
+                    r = (left is right) == isinstance(op, ast.Is)
+                elif isinstance(op, (ast.In, ast.NotIn)) and isinstance(right, tuple):
+                    r = any(left == x for x in right) == isinstance(op, ast.In)
+                else:
+                    raise _Cannot(f'comparison `{norm(e)}`')
+                if not r:
+                    return False
+                left = right
+            return True
+        if isinstance(e, ast.Call):
+            cn = call_name(e)
+            if cn == 'bool' and len(e.args) == 1:
+                return bool(self.ev(e.args[0], env, loc))
+            if cn == 'getattr' and len(e.args) >= 2 and norm(e.args[0]) == 'self':
+                a = self.ev(e.args[1], env, loc)
+                if isinstance(a, str):
+                    return self.attr(a, env)
+            if cn in ('any', 'all') and len(e.args) == 1 and isinstance(e.args[0], (ast.Tuple, ast.List)):
+                vals = [bool(self.ev(x, env, loc)) for x in e.args[0].elts]
+                return any(vals) if cn == 'any' else all(vals)
+            raise _Cannot(f'call `{norm(e)[:40]}`')
+        raise _Cannot(f'`{norm(e)[:40]}`')
+
+    def attr(self, name, env):
+        if name in env:
+            return env[name]
+        if name in self.props:
+            key = ('prop', name)
+            if key in env:
+                raise _Cannot(f'`{name}` depends on itself')
+            env2 = dict(env)
+            env2[key] = True
+            r = self.run(self.props[name].node.body, env2, {})
+            if r is None:
+                raise _Cannot(f'`{name}` can end without a return')
+            return r[0]
+        ca = self.ec.class_assignments().get(name)
+        if ca is not None and name not in self.domains:
+            return self.ev(ca, env, {})
+        raise _Cannot(f'`self.{name}` has no finite domain')
+
+    def run(self, stmts, env, loc):
+        """(value,) when the block returns, None when it falls through"""
+        for st in stmts:
+            if isinstance(st, ast.Expr) and isinstance(st.value, ast.Constant):
+                continue
+            if isinstance(st, (ast.Pass, ast.Import, ast.ImportFrom)):
+                continue
+            if isinstance(st, ast.Return):
+                return (self.ev(st.value, env, loc) if st.value is not None else None,)
+            if isinstance(st, ast.If):
+                r = self.run(st.body if self.ev(st.test, env, loc) else st.orelse, env, loc)
+                if r is not None:
+                    return r
+            elif isinstance(st, (ast.Assign, ast.AnnAssign)) and st.value is not None:
+                tg = st.targets if isinstance(st, ast.Assign) else [st.target]
+                if len(tg) != 1 or not isinstance(tg[0], ast.Name):
+                    raise _Cannot(f'statement `{norm(st)[:40]}`')
+                loc[tg[0].id] = self.ev(st.value, env, loc)
+            elif isinstance(st, ast.Match):
+                subj = self.ev(st.subject, env, loc)
+                for c in st.cases:
+                    if c.guard is not None:
+                        raise _Cannot('guarded case')
+                    pats = c.pattern.patterns if isinstance(c.pattern, ast.MatchOr) else [c.pattern]
+                    hit = False
+                    for p_ in pats:
+                        if isinstance(p_, ast.MatchAs) and p_.pattern is None:
+                            hit = True
+                        elif isinstance(p_, ast.MatchValue):
+                            hit = hit or subj == self.ev(p_.value, env, loc)
+                        else:
+                            raise _Cannot('pattern')
+                    if hit:
+                        r = self.run(c.body, env, loc)
+                        if r is not None:
+                            return r
+                        break
+            else:
+                raise _Cannot(f'statement `{norm(st)[:40]}`')
+        return None
+
+    def assignments(self, fields):
+        import itertools
+        fields = sorted(fields)
+        for combo in itertools.product(*(self.domains[f] for f in fields)):
+            yield dict(zip(fields, combo))
+
+    def own_switch(self, label):
+        """(field, predicate 'is off') of the option that the documentation gives species group `label`: the bool field
+        `<label>_enabled`, or the enum field `<label>_method` whose member NONE disables it"""
+        f = f'{label}_enabled'
+        if self.domains.get(f) == [True, False]:
+            return f, (lambda v: v is False), f'{f} = False'
+        f = f'{label}_method'
+        if f in self.domains and any(isinstance(v, _Member) and v.name == 'NONE' for v in self.domains[f]):
+            return f, (lambda v: isinstance(v, _Member) and v.name == 'NONE'), f'{f} = NONE'
+        return None
+
+
+def rule_own_switch(ctx, paths_by_species):
+    """R6 (truth table): a species group that is switched off is not enabled, whatever the other options say."""
+    prog = ctx.prog
+    cm = prog.module(CFGE)
+    ec = cm.cls('EmissionsConfig')
+    tab = _ConfigTable(prog, cm, ec)
+    ctx.floor('C11-R6/domains', len(tab.domains), 10, 'option fields with a finite domain')
+    n = 0
+    # (a) every derived switch `<label>_enabled` on its own
+    for name, fi in sorted(tab.props.items()):
+        if not name.endswith('_enabled'):
+            continue
+        label = name[:-len('_enabled')]
+        sw = tab.own_switch(label)
+        if sw is None or sw[0] == name:
+            continue
+        fields = tab.reads(fi.node) | {sw[0]}
+        bad, total = None, 0
+        try:
+            for env in tab.assignments(fields):
+                if sw[1](env[sw[0]]):
+                    total += 1
+                    if tab.attr(name, dict(env)) and bad is None:
+                        bad = env
+        except _Cannot as e:
+            ctx.undecided('C11-R6', fi, name, f'cannot evaluate the switch over its option fields: {e}')
+        n += 1
+        others = sorted(fields - {sw[0]})
+        ctx.ob('C11-R6', fi, f'`{name}` is off whenever {sw[2]}', bad is None,
+               (f'false for all {total} assignments of {sorted(fields)} with {sw[2]}' if bad is None else
+                f'`{name}` is true for {", ".join(f"{k}={v!r}" for k, v in sorted(bad.items()))}: the species is switched off '
+                f'({sw[2]}) but counts as enabled because of {others}, so enabled_species contains it and the trajectory and '
+                'LTO parts report it non-zero'), line=fi.node.lineno)
+    ctx.floor('C11-R6/switches', n, 5, 'derived `<label>_enabled` switches evaluated')
+    # (b) every species of enabled_species, through the conditions on its path(s)
+    fi = cm.func('EmissionsConfig.enabled_species')
+    for sp, paths in sorted(paths_by_species.items()):
+        labels = {t[len('self.'):-len('_enabled')] for g in paths for t, pol in g
+                  if pol and t.startswith('self.') and t.endswith('_enabled') and t[len('self.'):].isidentifier()}
+        label = sp.lower() if tab.own_switch(sp.lower()) else (next(iter(labels)) if len(labels) == 1 else None)
+        sw = tab.own_switch(label) if label else None
+        if sw is None:
+            continue
+        try:
+            conds = [[(ast.parse(t, mode='eval').body, pol) for t, pol in g] for g in paths]
+        except SyntaxError:
+            continue
+        fields = {sw[0]}
+        for g in conds:
+            for c, _pol in g:
+                fields |= tab.reads(c)
+        bad = None
+        try:
+            for env in tab.assignments(fields):
+                if sw[1](env[sw[0]]) and any(all(bool(tab.ev(c, dict(env), {})) == pol for c, pol in g) for g in conds):
+                    bad = env
+                    break
+        except _Cannot:
+            continue        # a condition outside the option fields: the symbolic table rule decides (or is undecided)
+        ctx.ob('C11-R6', fi, f'Species.{sp} is not enabled when {sw[2]}', bad is None,
+               f'for every assignment of {sorted(fields)}' if bad is None else
+               f'Species.{sp} is put into enabled_species for {", ".join(f"{k}={v!r}" for k, v in sorted(bad.items()))}: '
+               f'switched off ({sw[2]}), yet enabled', line=fi.node.lineno)
+
+
 def implication_table(ctx):
     """group label -> species, from EmissionsConfig.enabled_species: which `<label>_enabled` switch (and which
     further condition) each species needs to get into the set - computed from what the property *does*, not from
@@ -413,6 +735,7 @@ def implication_table(ctx):
     by_sp: dict[str, list] = {}
     for sp, guards in it.out:
         by_sp.setdefault(sp, []).append(guards)
+    rule_own_switch(ctx, by_sp)
     for sp, paths in by_sp.items():
         if len(paths) != 1:
             ctx.undecided('C11-R3/table', fi, f'Species.{sp}', f'added on {len(paths)} different paths')
@@ -762,6 +1085,41 @@ def _only_enabled_keys(prog, fi, it: ast.AST, groups) -> str | None:
     return f'the key walks the result of {callee.name}, which inserts each of its {n} species only when it is enabled'
 
 
+def _literal_species_keys(prog, fi, st, keyvar):
+    """the Species members the key variable of statement st walks, when its loop is over a constant collection: a
+    tuple / list / set of `Species.K`, a sequence of (Species.K, value) pairs, or a dict display keyed by Species.K
+    (`.items()` / keys) - written in place, a single-definition local or a module constant.  None otherwise."""
+    def literal(e):
+        if isinstance(e, ast.Name):
+            v = single_def_value(fi.node, e.id)
+            if v is None and not any(isinstance(t, ast.Name) and t.id == e.id for t, _s, _h in stores_to(fi.node)) and e.id not in fi.params:
+                r = prog.resolve_name(fi.module, e.id)
+                v = r[1].constants[r[2]] if isinstance(r, tuple) and r[0] == 'const' else None
+            e = v
+        return e
+
+    def member(x):
+        return x.attr if isinstance(x, ast.Attribute) and norm(x.value) == 'Species' else None
+
+    for owner, tgt, it in enclosing_iterations(st):
+        first = tgt.elts[0] if isinstance(tgt, (ast.Tuple, ast.List)) and tgt.elts else tgt
+        if not (isinstance(first, ast.Name) and first.id == keyvar):
+            continue
+        paired = first is not tgt
+        im = iterated_mapping(it)
+        src = literal(im[0]) if im is not None and (im[1] == 'items') == paired and im[1] != 'values' else literal(it)
+        if isinstance(src, ast.Dict) and (im is not None):
+            keys = [member(k) for k in src.keys]
+        elif isinstance(src, (ast.Tuple, ast.List, ast.Set)) and not paired:
+            keys = [member(x) for x in src.elts]
+        elif isinstance(src, (ast.Tuple, ast.List)) and paired:
+            keys = [member(x.elts[0]) if isinstance(x, (ast.Tuple, ast.List)) and x.elts else None for x in src.elts]
+        else:
+            return None
+        return keys if keys and all(keys) else None
+    return None
+
+
 # ---------------------------------------------------------------- R3 -----
 def rule_stores(ctx, groups):
     prog = ctx.prog
@@ -814,6 +1172,23 @@ def rule_stores(ctx, groups):
                     filtered = None
                     if g is None and not restore and not own_keys and gov is not None and gov[1] is not None:
                         filtered = _only_enabled_keys(prog, fi, gov[2], groups)
+                    if g is None and not restore and not own_keys and filtered is None:
+                        # the key walks a constant collection of Species members: each of them is a store under a
+                        # constant key at this place
+                        lit = _literal_species_keys(prog, fi, st, keyvar)
+                        if lit:
+                            for K_ in lit:
+                                g_ = species_enabled_by(atoms, K_, groups)
+                                where = 'in the producer'
+                                if g_ is None and call_facts:
+                                    gs = [species_enabled_by(a, K_, groups) for a in call_facts]
+                                    if gs and all(gs):
+                                        g_, where = gs[0], 'at every call site'
+                                ctx.ob('C11-R3', fi, f'{norm(t)} for {keyvar} = Species.{K_}', g_ is not None,
+                                       f'implied on: `{g_}` ({where})' if g_ else
+                                       (f'Species.{K_} is written into the {rel.split("/")[-1][:-3]} indices without any guard implying '
+                                        f'its switch is on: a switched-off species shows up in the inventory'), line=st.lineno)
+                            continue
                     ok = g is not None or restore or own_keys or filtered is not None
                     ctx.ob('C11-R3', fi, f'{norm(t)} = {norm(val)[:40] if val is not None else ""}', ok,
                            (f'guarded by `{g}`' if g else 'rewrites a key the map already contains' if restore else
@@ -966,6 +1341,562 @@ def rule_lifecycle(ctx):
            line=add_site[0].lineno)
 
 
+# ---------------------------------------------------------------- R7 -----
+_VIEW_FUNCS = {'asarray', 'asanyarray', 'atleast_1d', 'atleast_2d', 'squeeze', 'expand_dims', 'transpose', 'swapaxes',
+               'reshape', 'moveaxis', 'broadcast_to'}
+_VIEW_METHODS = {'view', 'reshape', 'transpose', 'swapaxes', 'squeeze'}
+_INPLACE_METHODS = {'fill', 'sort', 'put', 'itemset', 'resize', 'partition', 'setfield'}
+_INPLACE_FUNCS = {'put', 'place', 'putmask', 'copyto', 'put_along_axis', 'fill_diagonal'}
+_IMMUTABLE_BYTES = {'bytes', 'tobytes', 'encode', 'read', 'pack', 'getvalue', 'read_bytes'}
+
+
+class _Writability:
+    """May the object an expression evaluates to refuse an in-place store?  A small def-use analysis: origins are
+    followed backwards through reaching definitions of locals (on the CFG), through elements of local mappings (a
+    re-store of the same element that every path passes kills the older ones), through loops over mappings and
+    literal collections, view-preserving numpy operations, and the returns of resolved repository functions.  An origin
+    is reported only when it is a constructor known to hand out something that cannot be stored into:
+      np.broadcast_to, sliding_window_view (read-only views); as_strided(writeable=False); np.frombuffer over immutable
+      bytes; an array after `.flags.writeable = False` / `.setflags(write=False)`; MappingProxyType; and an object of a
+      repository class whose constructor takes `mutable` (default False) built without mutable=True, or after
+      `.freeze()` - `.copy(mutable=True)` makes a fresh writable one, `.copy()` keeps what it had.
+    Tags: (kind, what, file, line) with kind 'np' (numpy refuses: ValueError) or 'frozen' (the class refuses:
+    TypeError); ('param', name) stands for "whatever the caller passed"."""
+
+    def __init__(self, prog):
+        self.prog = prog
+        self._cfg = {}
+        self._defs = {}
+        self._busy = set()
+        self._memo = {}
+
+    # ---- per-function tables
+    def cfg(self, fi):
+        from ..cfg import CFG
+        k = id(fi.node)
+        if k not in self._cfg:
+            try:
+                self._cfg[k] = CFG(fi.node)
+            except Exception:
+                self._cfg[k] = None
+        return self._cfg[k]
+
+    def nodes(self, fi, stmt):
+        g = self.cfg(fi)
+        if g is None or stmt is None:
+            return []
+        return [n for n in g.nodes_of(stmt) if g.nodes[n].kind != 'join']
+
+    def defs(self, fi):
+        """name -> [(statement, kind, payload)]: kind 'value' (expr), 'tuple' (expr, index), 'iter' (target, iter),
+        'taint' (tag kind, what), 'unknown'"""
+        k = id(fi.node)
+        if k in self._defs:
+            return self._defs[k]
+        out = {}
+        fn = fi.node
+
+        def add(name, st, kind, *payload):
+            out.setdefault(name, []).append((st, kind, payload))
+
+        for x in walk_no_nested(fn):
+            if isinstance(x, ast.Assign):
+                for tgt in x.targets:
+                    if isinstance(tgt, ast.Name):
+                        add(tgt.id, x, 'value', x.value)
+                    elif isinstance(tgt, (ast.Tuple, ast.List)):
+                        for i, el in enumerate(tgt.elts):
+                            if isinstance(el, ast.Name):
+                                add(el.id, x, 'tuple', x.value, i)
+                            else:
+                                for nn in ast.walk(el):
+                                    if isinstance(nn, ast.Name) and isinstance(nn.ctx, ast.Store):
+                                        add(nn.id, x, 'unknown')
+                    elif isinstance(tgt, ast.Attribute) and norm(tgt).endswith('.flags.writeable') and isinstance(tgt.value.value, ast.Name) \
+                            and isinstance(x.value, ast.Constant) and x.value.value is False:
+                        add(tgt.value.value.id, x, 'taint', 'np', '`.flags.writeable = False`')
+            elif isinstance(x, ast.AnnAssign) and isinstance(x.target, ast.Name) and x.value is not None:
+                add(x.target.id, x, 'value', x.value)
+            elif isinstance(x, (ast.For, ast.AsyncFor)):
+                for nn in ast.walk(x.target):
+                    if isinstance(nn, ast.Name):
+                        add(nn.id, x, 'iter', x.target, x.iter)
+            elif isinstance(x, (ast.With, ast.AsyncWith)):
+                for it in x.items:
+                    if it.optional_vars is not None:
+                        for nn in ast.walk(it.optional_vars):
+                            if isinstance(nn, ast.Name):
+                                add(nn.id, x, 'unknown')
+            elif isinstance(x, ast.NamedExpr):
+                add(x.target.id, stmt_of(x), 'value', x.value)
+            elif isinstance(x, ast.ExceptHandler) and x.name:
+                add(x.name, x, 'unknown')
+            elif isinstance(x, ast.Expr) and isinstance(x.value, ast.Call) and isinstance(x.value.func, ast.Attribute) \
+                    and isinstance(x.value.func.value, ast.Name):
+                c = x.value
+                if c.func.attr == 'setflags' and any(k.arg == 'write' and isinstance(k.value, ast.Constant) and not k.value.value
+                                                     for k in c.keywords):
+                    add(c.func.value.id, x, 'taint', 'np', '`.setflags(write=False)`')
+                elif c.func.attr == 'freeze' and not c.args:
+                    add(c.func.value.id, x, 'taint', 'frozen', '`.freeze()`')
+        self._defs[k] = out
+        return out
+
+    def _avoiding(self, g, blocked, start_free=None):
+        def ok(a, b, lab):
+            if a == start_free:
+                return lab != 'e'
+            return a not in blocked
+        return ok
+
+    def reaching(self, fi, name, at):
+        """(definitions of local `name` that reach statement `at`, whether the value at function entry also does)"""
+        ds = self.defs(fi).get(name, [])
+        g = self.cfg(fi)
+        use = self.nodes(fi, at)
+        if not ds:
+            return [], True
+        if g is None or not use:
+            return ds, True
+        dn = {id(d[0]): self.nodes(fi, d[0]) for d in ds}
+        alln = {n for v in dn.values() for n in v}
+        out = []
+        for d in ds:
+            mine = dn[id(d[0])]
+            if not mine:
+                out.append(d)
+                continue
+            if any(g.reaches(a, u, self._avoiding(g, alln - {a}, a)) for a in mine for u in use):
+                out.append(d)
+        entry = any(g.reaches(g.entry, u, self._avoiding(g, alln)) for u in use)
+        return out, entry
+
+    # ---- origins
+    def origin(self, fi, e, at, depth=0):
+        key = (id(fi.node), id(e), id(at), 'o')
+        if key in self._memo:
+            return self._memo[key]
+        if key in self._busy or depth > 12 or e is None:
+            return set()
+        self._busy.add(key)
+        try:
+            r = self._origin(fi, e, at, depth)
+        finally:
+            self._busy.discard(key)
+        self._memo[key] = r
+        return r
+
+    def _tag(self, fi, kind, what, node):
+        return (kind, what, fi.file, getattr(node, 'lineno', 0))
+
+    def _mutable_default(self, callee):
+        """False when `callee` is the constructor of a repository class that takes `mutable` defaulting to False"""
+        if callee is None or callee.cls is None or callee.name != '__init__':
+            return None
+        a = callee.node.args
+        names = [p.arg for p in a.posonlyargs + a.args]
+        dflt = dict(zip(names[len(names) - len(a.defaults):], a.defaults))
+        dflt.update({p.arg: d for p, d in zip(a.kwonlyargs, a.kw_defaults) if d is not None})
+        d = dflt.get('mutable')
+        if isinstance(d, ast.Constant) and d.value is False:
+            return False
+        return None
+
+    def _origin(self, fi, e, at, depth):
+        np_only = lambda tags: {t for t in tags if t[0] in ('np', 'param')}     # noqa: E731
+        if isinstance(e, ast.IfExp):
+            return self.origin(fi, e.body, at, depth + 1) | self.origin(fi, e.orelse, at, depth + 1)
+        if isinstance(e, ast.BoolOp):
+            return set().union(*(self.origin(fi, v, at, depth + 1) for v in e.values))
+        if isinstance(e, (ast.NamedExpr, ast.Starred)):
+            return self.origin(fi, e.value, at, depth + 1)
+        if isinstance(e, ast.Name):
+            return self._name(fi, e, at, depth)
+        if isinstance(e, ast.Attribute):
+            if e.attr in ('T', 'real', 'imag'):
+                return np_only(self.origin(fi, e.value, at, depth + 1))
+            return set()
+        if isinstance(e, ast.Subscript):
+            sl = e.slice
+            parts = sl.elts if isinstance(sl, ast.Tuple) else [sl]
+            if any(isinstance(p_, ast.Slice) for p_ in parts) or (isinstance(sl, ast.Constant) and sl.value is Ellipsis):
+                return np_only(self.origin(fi, e.value, at, depth + 1))      # basic slicing: a view of the same memory
+            return self.element(fi, e.value, sl, at, depth + 1)
+        if isinstance(e, ast.Call):
+            return self._call(fi, e, at, depth)
+        return set()
+
+    def _name(self, fi, e, at, depth):
+        ds, entry = self.reaching(fi, e.id, at)
+        out = set()
+        if entry and e.id in fi.params:
+            out.add(('param', e.id))
+        elif entry and not self.defs(fi).get(e.id):
+            r = self.prog.resolve_name(fi.module, e.id)
+            if isinstance(r, tuple) and r[0] == 'const':
+                out |= self._static(r[1], r[1].constants[r[2]])
+        for st, kind, payload in ds:
+            if kind == 'value':
+                out |= self.origin(fi, payload[0], st, depth + 1)
+            elif kind == 'taint':
+                out.add(self._tag(fi, payload[0], payload[1], st))
+            elif kind == 'tuple':
+                v, i = payload
+                if isinstance(v, (ast.Tuple, ast.List)) and i < len(v.elts) and not any(isinstance(x, ast.Starred) for x in v.elts):
+                    out |= self.origin(fi, v.elts[i], st, depth + 1)
+                elif isinstance(v, ast.Call):
+                    callee = resolve_call(self.prog, fi, v)
+                    if callee is not None and callee.cls is None and not callee.node.decorator_list:
+                        for r in walk_no_nested(callee.node):
+                            if isinstance(r, ast.Return) and isinstance(r.value, ast.Tuple) and i < len(r.value.elts):
+                                out |= self._from_callee(fi, v, at, callee, self.origin(callee, r.value.elts[i], r, depth + 1), depth)
+            elif kind == 'iter':
+                tgt, it = payload
+                mi = map_iteration(tgt, it)
+                if mi is not None and mi[2] == e.id:
+                    out |= self.elements(fi, iterated_mapping(it)[0], st, depth + 1)
+                elif isinstance(tgt, ast.Name):
+                    seq = it
+                    if isinstance(seq, ast.Name):
+                        seq = single_def_value(fi.node, seq.id) or seq
+                    if isinstance(seq, ast.Call) and call_name(seq) in ('chain', 'itertools.chain'):
+                        seq = ast.Tuple(elts=[ast.Starred(value=a) for a in seq.args])
+                    if isinstance(seq, (ast.Tuple, ast.List, ast.Set)):
+                        for x in seq.elts:
+                            if isinstance(x, ast.Starred):
+                                im = iterated_mapping(x.value)
+                                if im is not None and im[1] == 'values':
+                                    out |= self.elements(fi, im[0], st, depth + 1)
+                            else:
+                                out |= self.origin(fi, x, st, depth + 1)
+        return out
+
+    def _static(self, mod, e):
+        """origin of a module-level constant's value (constructor calls only)"""
+        if isinstance(e, ast.Call):
+            class _M:
+                module, qualname, cls, file, params = mod, '<module>', None, mod.relpath, []
+                node = mod.tree
+            short = call_name(e).split('.')[-1]
+            if short == 'MappingProxyType':
+                return {('frozen', 'types.MappingProxyType(…)', mod.relpath, e.lineno)}
+            r = self.prog.resolve_name(mod, call_name(e)) if isinstance(e.func, ast.Name) else None
+            if isinstance(r, ClassInfo):
+                init = r.find_method('__init__')
+                if self._mutable_default(init) is False:
+                    mk = next((k.value for k in e.keywords if k.arg == 'mutable'), None)
+                    if not (isinstance(mk, ast.Constant) and mk.value is True):
+                        return {('frozen', f'{r.name}(…) without mutable=True', mod.relpath, e.lineno)}
+        return set()
+
+    def _from_callee(self, fi, call, at, callee, tags, depth):
+        """translate ('param', p) of the callee into what the caller passes for p"""
+        out = set()
+        for t in tags:
+            if t[0] != 'param':
+                out.add(t)
+                continue
+            a = _bound_arg(callee, call, t[1])
+            if a is not None:
+                out |= self.origin(fi, a, at, depth + 1)
+        return out
+
+    def _call(self, fi, c, at, depth):
+        name = call_name(c)
+        short = name.split('.')[-1]
+        np_only = lambda tags: {t for t in tags if t[0] in ('np', 'param')}     # noqa: E731
+        kw = {k.arg: k.value for k in c.keywords if k.arg}
+
+        def const(x, v):
+            return isinstance(x, ast.Constant) and x.value is v
+        if short == 'broadcast_to':
+            return {self._tag(fi, 'np', 'np.broadcast_to(…) returns a read-only view', c)}
+        if short == 'sliding_window_view' and not const(kw.get('writeable'), True):
+            return {self._tag(fi, 'np', 'sliding_window_view(…) returns a read-only view', c)}
+        if short == 'as_strided':
+            if const(kw.get('writeable'), False):
+                return {self._tag(fi, 'np', 'as_strided(…, writeable=False) returns a read-only view', c)}
+            return np_only(self.origin(fi, c.args[0], at, depth + 1)) if c.args else set()
+        if short == 'frombuffer' and c.args:
+            b = c.args[0]
+            if (isinstance(b, ast.Constant) and isinstance(b.value, bytes)) or (
+                    isinstance(b, ast.Call) and call_name(b).split('.')[-1] in _IMMUTABLE_BYTES):
+                return {self._tag(fi, 'np', 'np.frombuffer over immutable bytes is read-only', c)}
+            return set()
+        if short == 'MappingProxyType':
+            return {self._tag(fi, 'frozen', 'types.MappingProxyType(…) cannot be stored into', c)}
+        if isinstance(c.func, ast.Attribute) and c.func.attr == 'copy':
+            mk = kw.get('mutable') or (c.args[0] if c.args else None)
+            if mk is not None:
+                if const(mk, True):
+                    return set()
+                if const(mk, False):
+                    return {self._tag(fi, 'frozen', '.copy(mutable=False)', c)}
+            return {t for t in self.origin(fi, c.func.value, at, depth + 1) if t[0] in ('frozen', 'param')}
+        if isinstance(c.func, ast.Attribute) and c.func.attr in _VIEW_METHODS:
+            return np_only(self.origin(fi, c.func.value, at, depth + 1))
+        if short in _VIEW_FUNCS and name.split('.')[0] in ('np', 'numpy') and c.args:
+            if short in ('asarray', 'asanyarray') and (len(c.args) > 1 or 'dtype' in kw or const(kw.get('copy'), True)):
+                return set()        # a dtype conversion may copy: cannot say
+            return np_only(self.origin(fi, c.args[0], at, depth + 1))
+        callee = resolve_call(self.prog, fi, c)
+        if callee is None:
+            return set()
+        md = self._mutable_default(callee)
+        if md is False:
+            mk = kw.get('mutable')
+            if mk is None or const(mk, False):
+                return {self._tag(fi, 'frozen', f'{callee.cls.name}(…) built without mutable=True refuses item assignment', c)}
+            return set()
+        if callee.cls is not None and callee.name in ('__init__', '__post_init__'):
+            return set()
+        if callee.node.decorator_list or depth > 8:
+            return set()
+        out = set()
+        for r in walk_no_nested(callee.node):
+            if isinstance(r, ast.Return) and r.value is not None:
+                out |= self._from_callee(fi, c, at, callee, self.origin(callee, r.value, r, depth + 1), depth)
+        return out
+
+    # ---- elements of mappings
+    def elements(self, fi, m, at, depth=0):
+        """origins of any element the container expression m may hold at `at` (flow-insensitive)"""
+        key = (id(fi.node), id(m), id(at), 'e')
+        if key in self._memo:
+            return self._memo[key]
+        if key in self._busy or depth > 12:
+            return set()
+        self._busy.add(key)
+        out = set()
+        try:
+            if isinstance(m, ast.Name):
+                for t, st, how in stores_to(fi.node):
+                    if isinstance(t, ast.Subscript) and isinstance(t.value, ast.Name) and t.value.id == m.id and how in ('assign', 'ann'):
+                        out |= self.origin(fi, _stored_value(t, st), st, depth + 1)
+                out |= self._fillers(fi, m, depth)
+            elif isinstance(m, ast.Dict):
+                for v in m.values:
+                    out |= self.origin(fi, v, at, depth + 1)
+            elif isinstance(m, ast.DictComp):
+                out |= self.origin(fi, m.value, at, depth + 1)
+            elif isinstance(m, (ast.List, ast.Tuple, ast.Set)):
+                for v in m.elts:
+                    out |= self.origin(fi, v, at, depth + 1)
+            elif isinstance(m, (ast.ListComp, ast.GeneratorExp, ast.SetComp)):
+                out |= self.origin(fi, m.elt, at, depth + 1)
+            elif isinstance(m, ast.IfExp):
+                out |= self.elements(fi, m.body, at, depth + 1) | self.elements(fi, m.orelse, at, depth + 1)
+            elif isinstance(m, ast.Call):
+                callee = resolve_call(self.prog, fi, m)
+                if isinstance(m.func, ast.Attribute) and m.func.attr == 'copy' and not m.args:
+                    out |= self.elements(fi, m.func.value, at, depth + 1)
+                elif callee is not None and callee.cls is None and not callee.node.decorator_list and depth <= 8:
+                    for r in walk_no_nested(callee.node):
+                        if isinstance(r, ast.Return) and r.value is not None:
+                            out |= self._from_callee(fi, m, at, callee, {t for t in self.elements(callee, r.value, r, depth + 1)
+                                                                         if t[0] != 'param'}, depth)
+                elif callee is None or (callee.cls is not None and callee.name in ('__init__', '__post_init__')):
+                    # dict(x) / SpeciesValues(x) / list(x): the elements of the argument
+                    for a in m.args:
+                        out |= self.elements(fi, a, at, depth + 1)
+        finally:
+            self._busy.discard(key)
+        self._memo[key] = out
+        return out
+
+    def _fillers(self, fi, m, depth):
+        """origins of what gets into the local mapping m other than by `m[k] = V`: update / setdefault / `|=` / the
+        value m itself is bound to"""
+        out = set()
+        for t, st, how in stores_to(fi.node):
+            if isinstance(t, ast.Name) and t.id == m.id and how == 'aug' and isinstance(st.op, ast.BitOr):
+                out |= self.elements(fi, st.value, st, depth + 1)
+        for c in calls_in(fi.node):
+            if isinstance(c.func, ast.Attribute) and isinstance(c.func.value, ast.Name) and c.func.value.id == m.id:
+                if c.func.attr == 'update':
+                    for a in c.args:
+                        out |= self.elements(fi, a, stmt_of(c), depth + 1)
+                    for k in c.keywords:
+                        out |= self.origin(fi, k.value, stmt_of(c), depth + 1)
+                elif c.func.attr == 'setdefault' and len(c.args) == 2:
+                    out |= self.origin(fi, c.args[1], stmt_of(c), depth + 1)
+        for st, kind, payload in self.defs(fi).get(m.id, []):
+            if kind == 'value':
+                out |= self.elements(fi, payload[0], st, depth + 1)
+        return out
+
+    def element(self, fi, m, key, at, depth=0):
+        """origins of m[key] at statement `at`.  For a local mapping: the stores `m[key] = V` under the same key
+        text, when every path from the function entry, from a rebinding of a name the key mentions, and from any other
+        write into m passes such a store before reaching `at`; otherwise whatever was ever put into m."""
+        if not isinstance(m, ast.Name) or m.id in fi.params or not self.defs(fi).get(m.id):
+            if isinstance(m, ast.Call):
+                return self.elements(fi, m, at, depth)
+            return set()
+        fn = fi.node
+        ktxt = norm(key)
+        stores = [(t, st) for t, st, how in stores_to(fn) if isinstance(t, ast.Subscript) and isinstance(t.value, ast.Name)
+                  and t.value.id == m.id and how in ('assign', 'ann')]
+        same = [(t, st) for t, st in stores if norm(t.slice) == ktxt]
+        g = self.cfg(fi)
+        use = self.nodes(fi, at)
+        if same and g is not None and use:
+            same_n = {n for _t, st in same for n in self.nodes(fi, st)}
+            weak = set()
+            for nm in {x.id for x in ast.walk(key) if isinstance(x, ast.Name)} | {m.id}:
+                for st, kind, payload in self.defs(fi).get(nm, []):
+                    weak |= set(self.nodes(fi, st))
+            for c in calls_in(fn):
+                if isinstance(c.func, ast.Attribute) and isinstance(c.func.value, ast.Name) and c.func.value.id == m.id \
+                        and c.func.attr in ('update', 'setdefault', 'pop', 'clear', 'popitem'):
+                    weak |= set(self.nodes(fi, stmt_of(c)))
+            for t, st in stores:
+                if norm(t.slice) != ktxt and not (_const_key(t.slice) and _const_key(key)):
+                    weak |= set(self.nodes(fi, st))
+            weak -= same_n
+            blocked = self._avoiding(g, same_n)
+            covered = not any(g.reaches(a, u, blocked) for a in weak | {g.entry} for u in use)
+            if covered:
+                out = set()
+                for t, st in same:
+                    mine = self.nodes(fi, st)
+                    if any(g.reaches(a, u, self._avoiding(g, same_n - {a}, a)) for a in mine for u in use):
+                        out |= self.origin(fi, _stored_value(t, st), st, depth + 1)
+                return out
+        out = set()
+        for t, st in stores:
+            if _const_key(t.slice) and _const_key(key) and norm(t.slice) != ktxt:
+                continue
+            out |= self.origin(fi, _stored_value(t, st), st, depth + 1)
+        return out | self._fillers(fi, m, depth + 1)
+
+
+def _const_key(k):
+    return isinstance(k, ast.Constant) or (isinstance(k, ast.Attribute) and isinstance(k.value, ast.Name) and k.value.id[:1].isupper())
+
+
+def _stored_value(t, st):
+    """the expression stored by statement st into target t (None when t is one of several unpacked targets of a
+    value that is not a display)"""
+    v = getattr(st, 'value', None)
+    if isinstance(st, ast.Assign):
+        for tgt in st.targets:
+            if tgt is t:
+                return v
+            if isinstance(tgt, (ast.Tuple, ast.List)) and any(el is t for el in tgt.elts):
+                if isinstance(v, (ast.Tuple, ast.List)) and len(v.elts) == len(tgt.elts):
+                    return v.elts[[el is t for el in tgt.elts].index(True)]
+                return None
+        return None
+    return v
+
+
+def _bound_arg(callee, call, pname):
+    """the argument expression of `call` that binds parameter `pname` of callee (None when it cannot be told)"""
+    a = callee.node.args
+    names = [p.arg for p in a.posonlyargs + a.args]
+    if any(isinstance(x, ast.Starred) for x in call.args) or any(k.arg is None for k in call.keywords):
+        return None
+    for k in call.keywords:
+        if k.arg == pname:
+            return k.value
+    off = 1 if callee.cls is not None and names[:1] in (['self'], ['cls']) and isinstance(call.func, ast.Attribute) else 0
+    if callee.cls is not None and callee.name == '__init__':
+        off = 1
+    if pname in names:
+        i = names.index(pname) - off
+        if 0 <= i < len(call.args):
+            return call.args[i]
+        if i == -1 and isinstance(call.func, ast.Attribute):
+            return call.func.value
+    return None
+
+
+def rule_writable(ctx):
+    """R7: what is stored into must accept the store."""
+    prog = ctx.prog
+    w = _Writability(prog)
+    fns = [fi for m in prog.src_modules() if m.relpath.startswith('src/AEIC/emissions/') for fi in m.functions.values()]
+    summary: dict[tuple[str, str], dict[str, tuple]] = {}      # (file, qualname) -> {param: (what, line)}
+    sinks = []          # (fi, written object expr, statement, what, kinds)
+    for fi in fns:
+        for t, st, how in stores_to(fi.node):
+            if isinstance(t, ast.Subscript) and how in ('assign', 'aug', 'ann', 'del'):
+                sinks.append((fi, t.value, st, f'store `{norm(t)[:50]}`', ('np', 'frozen')))
+            elif isinstance(t, ast.Name) and how == 'aug':
+                sinks.append((fi, t, st, f'in-place `{norm(st)[:50]}`', ('np',)))
+        for c in calls_in(fi.node):
+            st = stmt_of(c)
+            short = call_name(c).split('.')[-1]
+            if isinstance(c.func, ast.Attribute) and c.func.attr in _INPLACE_METHODS and not call_name(c).startswith(('np.', 'numpy.')):
+                sinks.append((fi, c.func.value, st, f'in-place `{norm(c)[:50]}`', ('np',)))
+            elif short in _INPLACE_FUNCS and call_name(c).split('.')[0] in ('np', 'numpy') and c.args:
+                sinks.append((fi, c.args[0], st, f'in-place `{norm(c)[:50]}`', ('np',)))
+            for k in c.keywords:
+                if k.arg == 'out' and not isinstance(k.value, ast.Constant):
+                    sinks.append((fi, k.value, st, f'`out=` of `{norm(c)[:40]}`', ('np',)))
+    n = 0
+    results = []
+    for fi, obj, st, what, kinds in sinks:
+        tags = w.origin(fi, obj, st)
+        n += 1
+        for t in tags:
+            if t[0] == 'param':
+                summary.setdefault((fi.file, fi.qualname), {}).setdefault(t[1], (what, st.lineno))
+        results.append((fi, obj, st, what, {t for t in tags if t[0] in kinds}))
+    # what a callee stores into, its callers must be able to hand over (to a fixpoint over the call graph)
+    for _round in range(4):
+        changed = False
+        for fi in fns:
+            for c in calls_in(fi.node):
+                callee = resolve_call(prog, fi, c)
+                if callee is None or (callee.file, callee.qualname) not in summary:
+                    continue
+                for pname, (cw, cl) in list(summary[(callee.file, callee.qualname)].items()):
+                    a = _bound_arg(callee, c, pname)
+                    if a is None:
+                        continue
+                    st = stmt_of(c)
+                    tags = w.origin(fi, a, st)
+                    for t in tags:
+                        if t[0] == 'param' and t[1] not in summary.setdefault((fi.file, fi.qualname), {}):
+                            summary[(fi.file, fi.qualname)][t[1]] = (f'{callee.name}(…): {cw}', st.lineno)
+                            changed = True
+                    hard = {t for t in tags if t[0] in ('np', 'frozen')}
+                    key = (id(c), pname)
+                    if hard and not any(r[5:] == (key,) for r in results):
+                        results.append((fi, a, st, f'`{norm(a)[:30]}` handed to {callee.name}, which does {cw}', hard, key))
+        if not changed:
+            break
+    for r in results:
+        fi, obj, st, what, hard = r[:5]
+        ok = not hard
+        first = sorted(hard)[0] if hard else None
+        ctx.ob('C11-R7', fi, f'{what}: the object written accepts the store', ok,
+               'nothing that reaches it is a read-only view or a frozen container' if ok else
+               (f'`{norm(obj)[:40]}` can be the object made at {first[2].split("/")[-1]}:{first[3]} - {first[1]} - and storing into it raises '
+                f'{"ValueError (destination is read-only)" if first[0] == "np" else "TypeError (frozen)"}: every option '
+                'combination that reaches this line fails with an internal error instead of an inventory or a refusal by name'),
+               line=st.lineno, nontrivial=not ok or bool(w.defs(fi)))
+    ctx.floor('C11-R7', n, 12, 'in-place stores in the emissions package')
+    # positive control: an embedded producer that blanks a window of broadcast constants
+    ctl = ast.parse('def producer(n, v, w):\n idx = {}\n for k in ("a", "b"):\n  idx[k] = np.broadcast_to(v, (n,))\n'
+                    ' idx["c"] = np.full(n, v)\n for k in idx:\n  for arr in (idx[k],):\n   arr[:w.start] = 0.0\n'
+                    ' fresh = {}\n for k in idx:\n  fresh[k] = idx[k].copy()\n  fresh[k][:w.start] = 0.0\n return idx, fresh')
+    for a_ in ast.walk(ctl):
+        for ch in ast.iter_child_nodes(a_):
+            if not isinstance(ch, (ast.expr_context, ast.operator, ast.unaryop, ast.cmpop, ast.boolop)):
+                ch._parent = a_
+    f = ctl.body[0]
+    cm = prog.module(CFGE)
+
+    class _F:
+        node, params, qualname, name, module, cls, file = f, ['n', 'v', 'w'], 'producer', 'producer', cm, None, '<control>'
+    got = [bool({t for t in w.origin(_F, t_.value, st_) if t[0] == 'np'}) for t_, st_, how_ in stores_to(f)
+           if isinstance(t_, ast.Subscript) and isinstance(st_.value, ast.Constant)]
+    ctx.control('C11-R7', got == [True, False], 'embedded producer: a store into a broadcast_to view is seen, a store into its copy is not')
+
+
 def run(ctx):
     rule_lifecycle(ctx)
     groups = implication_table(ctx)
@@ -975,5 +1906,6 @@ def run(ctx):
     rule_stores(ctx, groups)
     rule_elements(ctx)
     rule_switches(ctx)
+    rule_writable(ctx)
     ctx.assumptions += ['the numeric balance of each configuration is C01; here only absence of internal errors '
                         'and of switched-off species is decided, per site, for every enum member']
